@@ -75,6 +75,15 @@ def c19DriverExt : String → List C19W → C19R C19W
       | some v => .ok v
       | none => .ok (.sym s)
   | "IdentityMapper.rec", [_, .int k, _, _] => .ok (.int k)
+  | "EvaluationMapper.rec", [_, .frac a b] => .ok (.frac a b)
+  -- a method the class of the receiver does not have (`FieldTraits` has no `gcd` / `lcm` /
+  -- `get_unit` / `norm`): Python raises AttributeError
+  | "FieldTraits.lcm", _ => .raise "AttributeError"
+  | "FieldTraits.gcd", _ => .raise "AttributeError"
+  | "FieldTraits.get_unit", _ => .raise "AttributeError"
+  | "FieldTraits.norm", _ => .raise "AttributeError"
+  -- the constructor of the `Quotient` node (a class outside the table)
+  | "primitives.Quotient", [a, b] => .ok (.obj "Quotient" ["numerator", "denominator"] [a, b])
   | name, _ => .stuck ("external name " ++ name)
 
 def handleC19Table : Sexp → Option Sexp
